@@ -24,7 +24,7 @@ SPEC = {
         'tri_rdDExp', 'tri_rdSExp', 'tri_rdDModel', 'tri_rdSModel', 'tri_rdPD', 'tri_rdPS', 'tri_rdMPol', 'tri_polLoop', 'tri_rdPPol',
         'junk_token_fails', 'corrupted_load_rejected', 'corrupted_rejected_ppol', 'corrupted_rejected_dmodel', 'corrupted_rejected_sexp',
         # bytes <-> tokens: any white-space layout tokenizes back to the token list; byte-level round trip
-        'tokenize_render', 'roundtrip_bytes', 'printN_clean', 'wrDModel_clean', 'wrPPol_clean', 'truncated_bytes_rejected',
+        'tokenize_render', 'roundtrip_bytes', 'printN_clean', 'wrDModel_clean', 'wrPPol_clean', 'truncated_bytes_rejected', 'gText_clean', 'printDQ_clean', 'ratIO_printClean',
         # the fuel of the policy loop is immaterial (the model is the unbounded while(true))
         'dec_rdEntry', 'polLoop_fuel_step', 'rdPPol_fuel_free', 'ratIO_scanShrinks',
         # tied to the source through Gen/IOPrec
